@@ -158,7 +158,7 @@ def run(repo, rep, tier):
     for kb in enc.kinds:
         for cnd in kb.type_conds:
             atoms = sorted(bool_atoms(cnd))
-            foreign = [a for a in atoms if not a.replace(" ", "").startswith("self._type")]
+            foreign = [a for a in atoms if not a.replace(" ", "").startswith(("self._type", "isinstance(self,"))]
             rep.ob("C04.R2", kb.node, f"{kb.cls}: the type byte is chosen by the cell's own kind (`{U(cnd)[:60]}`)", not foreign,
                    "" if not foreign else f"the type byte also depends on `{foreign[0]}`: a cell whose kind says one thing and whose references say another is written as the other kind and reopens as it "
                    "(a NUMBER cell holding a currency format reference comes back as CURRENCY)", key=f"C04.R2@type-choice:{kb.cls}")
